@@ -1,6 +1,6 @@
 (* Properties/C12.v — A bucket's signature truthfully generalises its members.  Statements only. *)
 From PP Require Import Base.Bytes Base.GoResult Model.Types Model.Stack Model.Bucket Spec.BucketSpec Spec.Wf.
-From PP Require Import Proofs.Aggregate.
+From PP Require Import Proofs.Truthful.
 
 (* For every snapshot, level and oracle: every bucket satisfies c12_bucket -
    state, creator frames and every frame's function/file/line equal those of
@@ -9,7 +9,7 @@ From PP Require Import Proofs.Aggregate.
    those of all members; sleep range = exact min/max; locked iff some member is. *)
 Theorem C12_truthful :
   forall shuffle lvl gs bs, aggregate shuffle lvl gs = Ok bs -> c12_ok gs bs = true.
-Proof. exact Aggregate.truthful. Qed.
+Proof. exact Truthful.truthful. Qed.
 Print Assumptions C12_truthful.
 
 (* "No value held by only some members is ever presented as common": a scalar
@@ -18,10 +18,10 @@ Theorem C12_unstarred_is_common :
   forall b ms, ms <> [] -> forallb (fun m => negb (IsAggregate m)) ms = true ->
   c12_arg b ms = true -> beq (Name b) (s2b "*") = false ->
   forall m, In m ms -> Value m = Value b /\ IsPtr m = IsPtr b /\ IsOffsetTooLarge m = IsOffsetTooLarge b /\ Name m = Name b.
-Proof. exact Aggregate.unstarred_is_common. Qed.
+Proof. exact Truthful.unstarred_is_common. Qed.
 Print Assumptions C12_unstarred_is_common.
 
 Example C12_example : exists gs bs, List.length gs = 3 /\ aggregate id_shuffle AnyPointer gs = Ok bs /\
   List.length bs = 1 /\ c12_ok gs bs = true /\
   exists b c a, bs = [b] /\ Calls (SStack (BSig b)) = [c] /\ Values (CArgs c) = [a] /\ Name a = s2b "*".
-Proof. exact Aggregate.example_truthful. Qed.
+Proof. exact Truthful.example_truthful. Qed.
